@@ -208,6 +208,23 @@ def decisions_to_actions(M, gridname, decisions, length):
 def replay(rp):
     """Concrete re-run on the unmodified code with plain floats; True iff a violation shows."""
     M = load_mesh_module()
+    if rp.get('kind') == 'fp-midpoint':
+        if not rp.get('values'):
+            return True
+        lo, hi, fixed = rp['values']
+        mesh = object.__new__(M.Mesh)
+        mesh.vertices = []
+        if rp['axis'] == 1:
+            A, B = M.Vertex(t=fixed, x=lo, idx=0), M.Vertex(t=fixed, x=hi, idx=1)
+        else:
+            A, B = M.Vertex(t=lo, x=fixed, idx=0), M.Vertex(t=hi, x=fixed, idx=1)
+        try:
+            m1 = getattr(mesh, '_Mesh__bisect_edge')(M.Edge((A, B)))
+            m2 = getattr(mesh, '_Mesh__bisect_edge')(M.Edge((B, A)))
+        except AssertionError:
+            return True
+        c1, c2 = (m1.x, m2.x) if rp['axis'] == 1 else (m1.t, m2.t)
+        return not (c1 == c2 and lo <= c1 <= hi)
     gridname = rp['grid']
     n_t, n_x, glued = meshsym.GRIDS[gridname]
     vals = rp.get('values') or {}
@@ -260,18 +277,97 @@ def cases_for(tier, mode, seed):
     return cases, cfg
 
 
+def fp_midpoint_worker(case):
+    """QF_FP lemma: the midpoint vertex `Mesh.__bisect_edge` creates does not depend on the orientation of the edge
+    (refine_axis bisects two opposite edges of an element in opposite directions and asserts that the two new
+    vertices agree in the bisected coordinate), and lies within the edge - in IEEE double arithmetic, for all finite
+    end points up to 2^60.  The real method is executed on z3 Float64 terms."""
+    import z3 as _z3
+    from vf import fpsym
+    axis, with_bounds = case
+    M = load_mesh_module()
+    eng = Engine(timeout_ms=120000)
+    res = dict(stats=None, violations=[], inconclusive=[], samples=[], functions=['src/mesh.py:Mesh.__bisect_edge'],
+               evaluations=0, nontrivial=0, part_extra=dict(states=0, transitions=0))
+
+    def body():
+        lo, hi, fixed = fpsym.FPV.var('lo'), fpsym.FPV.var('hi'), fpsym.FPV.var('fixed')
+        for v in (lo, hi, fixed):
+            eng.assume(fpsym.finite_bounded(v, 2.0**60))
+        eng.assume(lo < hi)
+        mesh = object.__new__(M.Mesh)
+        mesh.vertices = []
+        if axis == 1:   # space edge: t fixed, x from lo to hi
+            A, B = M.Vertex(t=fixed, x=lo, idx=0), M.Vertex(t=fixed, x=hi, idx=1)
+        else:           # time edge: x fixed
+            A, B = M.Vertex(t=lo, x=fixed, idx=0), M.Vertex(t=hi, x=fixed, idx=1)
+        e1, e2 = M.Edge((A, B)), M.Edge((B, A))
+        m1 = getattr(mesh, '_Mesh__bisect_edge')(e1)
+        m2 = getattr(mesh, '_Mesh__bisect_edge')(e2)
+        c1, c2 = (m1.x, m2.x) if axis == 1 else (m1.t, m2.t)
+        f1, f2 = (m1.t, m2.t) if axis == 1 else (m1.x, m2.x)
+        # each claim is a statement about values computed from the inputs only: posed to a fresh solver under the
+        # input assumptions (the engine's path condition would only slow the bit-blaster down)
+        inputs = _z3.And(fpsym.finite_bounded(lo, 2.0**60), fpsym.finite_bounded(hi, 2.0**60),
+                         fpsym.finite_bounded(fixed, 2.0**60), _z3.fpLT(lo.e, hi.e))
+        claims = [('orientation', _z3.fpEQ(c1.e, c2.e)),
+                  ('fixed coordinate', _z3.And(_z3.fpEQ(f1.e, fixed.e), _z3.fpEQ(f2.e, fixed.e)))]
+        if with_bounds:
+            claims += [('lo <= mid', _z3.fpLEQ(lo.e, c1.e)), ('mid <= hi', _z3.fpLEQ(c1.e, hi.e))]
+        for name, claim in claims:
+            sv = _z3.Solver()
+            sv.set('timeout', 300000)
+            sv.add(inputs, _z3.Not(claim))
+            t0 = time.time()
+            r = sv.check()
+            eng.stats['solver_s'] += time.time() - t0
+            eng.stats['verdict_queries'] += 1
+            if r == _z3.unsat:
+                eng.stats['verdict_unsat'] += 1
+            elif r == _z3.sat:
+                eng.stats['verdict_sat'] += 1
+                m = sv.model()
+                return False, (fpsym.model_float(m, lo), fpsym.model_float(m, hi), fpsym.model_float(m, fixed)), name
+            else:
+                raise Inconclusive('solver unknown on the QF_FP claim "%s"' % name)
+        return True, None, None
+    try:
+        for pr in eng.explore(body):
+            res['evaluations'] += 1
+            res['nontrivial'] += 1
+            bad, vals = None, None
+            if pr.status == 'exc':
+                _, m = eng.feasible(True)
+                bad = '%r at %s' % (pr.exc, pr.tb[-1])
+            elif not pr.value[0]:
+                bad, vals = 'QF_FP claim "%s" about the midpoint vertex fails in double arithmetic' % pr.value[2], pr.value[1]
+            if bad:
+                rp = dict(kind='fp-midpoint', axis=axis, values=list(vals) if vals else None)
+                res['violations'].append(dict(signature='C02:fp-midpoint', what='%s [axis %d, lo/hi/fixed = %s]' % (bad, axis, vals),
+                                              replay=rp, reproduced=replay(rp)))
+        res['samples'].append(dict(fp_midpoint_axis=axis))
+    except Inconclusive as e:
+        res['inconclusive'].append('fp midpoint axis %d: %s' % (axis, e))
+    res['stats'] = eng.stats
+    return res
+
+
 def run(out, mode='C02'):
     cases, cfg = cases_for(out.tier, mode, out.seed)
     results = report.pmap('checks.c02', 'worker', cases)
     for c, r in zip(cases, results):
         report.merge_worker(out, r, part='%s depth %d' % (c[0], c[1]))
+    if mode == 'C02':
+        fpc = [(0, out.tier != 'quick'), (1, out.tier != 'quick')]
+        for c, r in zip(fpc, report.pmap('checks.c02', 'fp_midpoint_worker', fpc)):
+            report.merge_worker(out, r, part='QF_FP lemma: midpoint of __bisect_edge (axis %d)' % c[0])
     out.bounds = dict(grids={g: dict(zip(('time_slabs', 'space_cells', 'glued'), meshsym.GRIDS[g]))
                              for g in cfg['grids']},
                       history_depth=cfg['depth'],
                       operations=['refine_time(leaf)', 'refine_space(leaf)', 'refine(leaf)', 'uniform_refine',
                                   'uniform_refine_space'],
                       grid_coordinates='symbolic reals, strictly increasing (all values at once)')
-    out.outside = ['histories longer than the stated depth', 'floating-point rounding (coordinates are reals)',
+    out.outside = ['histories longer than the stated depth', 'floating-point rounding other than the midpoint lemma (coordinates are reals)',
                    'Doerfler and grading as operations (covered by C06 / C19)', 'initial grids larger than listed']
     out.assumptions = ['real arithmetic for coordinates (bisection midpoints of dyadic depth <= 6 are exact in binary64)',
                        'Ref (vf/meshref.py): dyadic rectangles + geometric adjacency + least closure fixpoint',
